@@ -1,6 +1,6 @@
 //! C12: drives TlsTransport<DuplexTransport> against a recording peer.
 //!
-//! case line: <tls yes|no> <uri> <cert good|wrongname|untrusted> <salpn none|h2|h11> <calpn none|h2> <fault none|close|plaintext|truncate|transport> [<Host header value|->]
+//! case line: <tls yes|no> <uri> <cert good|wrongname|untrusted> <salpn none|h2|h11> <calpn none|h2> <fault none|close|plaintext|truncate|transport> [<Host header value|->] [<method, default GET>]
 //! output:    <OKTLS|OKPLAIN|ERRCONN|ERRHS|ERRNODOMAIN|ERROTHER|PANIC> <first bytes at peer: tls|ascii|nothing> <marker seen in clear 0|1> <sni seen by server|-> <client alpn h2|h11|none|-> ;; <uri scheme|-> <uri host|->
 use std::pin::Pin;
 use std::sync::{Arc, Mutex};
@@ -81,6 +81,9 @@ async fn run(f: Vec<String>) -> String {
         Ok(u) => u.into_request_parts(),
         Err(_) => return "BADURI nothing 0 - - ;; - - -".into(),
     };
+    if let Some(m) = f.get(7) {
+        parts.method = http::Method::from_bytes(m.as_bytes()).unwrap_or(http::Method::GET);
+    }
     // the request parts handed to the transport may already carry a Host header (set by the caller);
     // the server name must come from the URI all the same
     if let Some(h) = f.get(6).filter(|h| h.as_str() != "-") {
